@@ -38,7 +38,87 @@ fn observe(db: &mut RootDatabase, code: &str) -> (String, String) {
     (diag, s)
 }
 
+const LIB: &str = "pub mod shapes {\n    #[derive(Copy, Drop, PartialEq, Serde)]\n    pub struct Pt { pub x: u8, pub y: u8 }\n    #[derive(Copy, Drop)]\n    pub enum Shape { Dot: Pt, Seg: (Pt, Pt), Nil }\n    pub trait Area<T> { fn area(self: @T) -> u32; }\n    pub impl ShapeArea of Area<Shape> {\n        fn area(self: @Shape) -> u32 {\n            match *self { Shape::Dot(_) => 1, Shape::Seg((a, b)) => super::util::dist(a.x, b.x) + super::util::dist(a.y, b.y), Shape::Nil => 0 }\n        }\n    }\n}\npub mod util {\n    pub const LIMIT: u32 = 300;\n    pub fn dist(a: u8, b: u8) -> u32 { if a < b { (b - a).into() } else { (a - b).into() } }\n    pub fn twice<T, +Add<T>, +Copy<T>, +Drop<T>>(x: T) -> T { x + x }\n    pub fn sum(mut s: Span<u32>) -> u32 { let mut t = 0; while let Some(v) = s.pop_front() { t += *v; } t }\n    #[inline(always)]\n    pub fn clamp(v: u32) -> u32 { if v > LIMIT { LIMIT } else { v } }\n    pub fn fact(n: u32) -> u32 { if n == 0 { 1 } else { n * fact(n - 1) } }\n}\n";
+
+const LIB_DEPENDENTS: &[(&str, &str)] = &[
+    ("area", "use mylib::shapes::{Pt, Shape, Area};\nfn f(a: u8, b: u8) -> u32 { let s = Shape::Seg((Pt { x: a, y: 1 }, Pt { x: 2, y: b })); s.area() }\n"),
+    ("generic", "use mylib::util::twice;\nfn f(a: u8, b: felt252) -> felt252 { twice(a).into() + twice(b) }\n"),
+    ("const-inline", "use mylib::util::{clamp, LIMIT};\nfn f(a: u32) -> u32 { clamp(a * 2) + LIMIT }\n"),
+    ("span-loop", "use mylib::util::sum;\nfn f(a: u32) -> u32 { sum(array![a, 1, 2].span()) }\n"),
+    ("recursion", "use mylib::util::fact;\nfn f(a: u32) -> u32 { fact(a % 6) }\n"),
+    ("derive-eq-serde", "use mylib::shapes::Pt;\nfn f(a: u8) -> bool { let p = Pt { x: a, y: a }; let mut out = array![]; p.serialize(ref out); p == Pt { x: 1, y: 1 } && out.len() == 2 }\n"),
+    ("impl-in-dependent", "use mylib::shapes::{Area, Pt};\nimpl PtArea of Area<Pt> { fn area(self: @Pt) -> u32 { (*self.x).into() * (*self.y).into() } }\nfn f(a: u8) -> u32 { Pt { x: a, y: 3 }.area() }\n"),
+    ("type-error", "use mylib::shapes::Pt;\nfn f(a: u8) -> u32 { Pt { x: a, y: a }.z }\n"),
+    ("missing-item", "use mylib::util::nothing;\nfn f() -> u32 { nothing() }\n"),
+    ("private-path", "fn f(a: u8) -> u32 { mylib::util::dist(a, 3) + mylib::shapes::ShapeArea::area(@mylib::shapes::Shape::Nil) }\n"),
+];
+
+fn run_library(ctx: &mut Ctx) {
+    let cfgs: Vec<Cfg> = ctx.tier.pick(vec![Cfg::DEFAULT], vec![Cfg::DEFAULT, Cfg::BASELINE, Cfg { opt: Opt::Avoid, ..Cfg::DEFAULT }, Cfg { opt: Opt::Small(1000), ..Cfg::DEFAULT }]);
+    for cfg in &cfgs {
+        ctx.case(
+            || json!({"space":"library-crate","config":cfg.name()}),
+            |ctx| {
+                // cache of the library generated in its own database
+                let blob = {
+                    let mut gdb = new_db(cfg);
+                    let ci = set_src(&mut gdb, "mylib", LIB);
+                    let ids = cairo_lang_filesystem::ids::CrateInput::into_crate_ids(&gdb, vec![ci]);
+                    match guarded(|| generate_crate_cache(&gdb, ids[0])) {
+                        Ok(Ok(b)) => b,
+                        Ok(Err(e)) => {
+                            ctx.violation("cache-generation-fails", format!("generating the cache of an error-free library crate fails: {e:?}"), json!({"config": cfg.name()}));
+                            return;
+                        }
+                        Err((loc, msg)) => {
+                            ctx.violation(panic_sig(&loc, &msg), format!("cache generation panicked: {msg}"), json!({"config": cfg.name()}));
+                            return;
+                        }
+                    }
+                };
+                ctx.max("library_cache_blob_bytes", blob.len() as i64);
+                let mut sdb = new_db(cfg);
+                set_src_deps(&mut sdb, "mylib", LIB, &[], None);
+                let mut cdb = new_db(cfg);
+                set_src_deps(&mut cdb, "mylib", LIB, &[], Some(blob));
+                for (name, code) in LIB_DEPENDENTS {
+                    if !ctx.sub(|| json!({"dependent": name, "config": cfg.name(), "cached_crate": "mylib"})) {
+                        continue;
+                    }
+                    ctx.count("evaluations", 1);
+                    ctx.distinct(&(cfg.name(), "mylib", name));
+                    let obs = |db: &mut RootDatabase| {
+                        let ci = set_src_deps(db, "test", code, &["mylib"], None);
+                        let (diag, has_err) = diagnostics(db, &ci);
+                        let s = if has_err { "<errors>".to_string() } else { sierra(db, &ci).map(|p| p.to_string()).unwrap_or_else(|e| format!("<{e}>")) };
+                        (diag, s)
+                    };
+                    let a = guarded(|| obs(&mut sdb));
+                    let b = guarded(|| obs(&mut cdb));
+                    match (a, b) {
+                        (Ok(a), Ok(b)) => {
+                            ctx.outcome(if a.1.starts_with('<') { "lib-dependent-with-errors" } else { "lib-dependent-compiles" });
+                            if a.0 != b.0 {
+                                ctx.violation("diagnostics-differ-with-cache:library", "diagnostics differ between library-from-source and library-from-cache", json!({"dependent": name, "config": cfg.name(), "source": a.0.chars().take(600).collect::<String>(), "cache": b.0.chars().take(600).collect::<String>()}));
+                            } else if a.1 != b.1 {
+                                let i = a.1.bytes().zip(b.1.bytes()).position(|(x, y)| x != y).unwrap_or(0);
+                                ctx.violation("sierra-differs-with-cache:library", format!("Sierra differs near {:?} vs {:?}", &a.1[i.saturating_sub(80)..(i + 80).min(a.1.len())], &b.1[i.saturating_sub(80)..(i + 80).min(b.1.len())]), json!({"dependent": name, "config": cfg.name()}));
+                            }
+                        }
+                        (Err((loc, msg)), Ok(_)) | (Ok(_), Err((loc, msg))) => {
+                            ctx.violation(format!("panic-only-on-one-side:{}", panic_sig(&loc, &msg)), format!("one of (source, cache) panics: {loc}: {msg}"), json!({"dependent": name, "config": cfg.name(), "cached_crate": "mylib"}));
+                            return;
+                        }
+                        (Err(_), Err(_)) => return,
+                    }
+                }
+            },
+        );
+    }
+}
+
 fn run(ctx: &mut Ctx) {
+    run_library(ctx);
     let tier = ctx.tier;
     let cfgs: Vec<Cfg> = tier.pick(vec![Cfg::DEFAULT], vec![Cfg::DEFAULT, Cfg::BASELINE, Cfg { opt: Opt::Avoid, ..Cfg::DEFAULT }]);
     let snips = snippets(tier);
@@ -131,8 +211,8 @@ fn run(ctx: &mut Ctx) {
 pub static C20: CheckDef = CheckDef {
     id: "C20",
     level: "exploration",
-    rule: "Cached crate = corelib (cache blob generated in-process by generate_crate_cache with the same settings) x optimisation configs {default} (thorough: + disabled, avoid-inlining). Dependents enumerated completely: every e2e cairo_code snippet (382), the 24 hand-written programs, every file of examples/ and tests/bug_samples, 12 seed programs and a type-broken variant of each (so diagnostics are exercised). For each dependent the same incremental database pair (corelib from source / corelib from cache) produces diagnostics text and Sierra text (debug-name ids); oracle: byte equality of both (CASM is a function of the Sierra text). distinct_nontrivial = distinct (config, dependent).",
-    assumptions: &["only the corelib is used as the cached crate in this version"],
+    rule: "Cached crates = corelib, and a two-module library crate with generics, traits/impls, consts, derives, an inline(always) function and recursion (10 dependents incl. ill-typed ones; cache blobs generated in-process by generate_crate_cache with the same settings) x optimisation configs {default} (thorough: + disabled, avoid-inlining). Dependents enumerated completely: every e2e cairo_code snippet (382), the 24 hand-written programs, every file of examples/ and tests/bug_samples, 12 seed programs and a type-broken variant of each (so diagnostics are exercised). For each dependent the same incremental database pair (corelib from source / corelib from cache) produces diagnostics text and Sierra text (debug-name ids); oracle: byte equality of both (CASM is a function of the Sierra text). distinct_nontrivial = distinct (config, dependent).",
+    assumptions: &["cached crates: the corelib and one library crate"],
     run,
     stack_mb: 32,
     item_timeout_s: 300,
